@@ -62,12 +62,16 @@ def main():
                         for ln in p.stdout.splitlines() if ln.startswith("violation rule/signature")]
                 verdicts.append(f"{pid}:{'KILLED' if p.returncode == 1 else 'SURVIVED' if p.returncode == 0 else 'HARNESS'}"
                                 f"[{'; '.join(sigs)[:160]}]")
-            results.append((m["id"], " ".join(verdicts), suite))
+            expect = m.get("expect", "kill")
+            tag = "" if expect == "kill" else " (expected to survive: behaviour-preserving)"
+            if expect == "survive":
+                verdicts = [v.replace("SURVIVED", "OK-SURVIVED").replace("KILLED", "FALSE-ALARM") for v in verdicts]
+            results.append((m["id"], " ".join(verdicts) + tag, suite))
         finally:
             shutil.rmtree(tmp, ignore_errors=True)
         print(*results[-1], flush=True)
     # replays written against scratch copies are of no further use
-    surv = [r for r in results if "SURVIVED" in r[1] or "HARNESS" in r[1] or "STALE" in r[1]]
+    surv = [r for r in results if ":SURVIVED" in r[1] or "HARNESS" in r[1] or "STALE" in r[1] or "FALSE-ALARM" in r[1]]
     print(f"mutants={len(results)} not-killed={len(surv)}")
     return 1 if surv else 0
 
